@@ -109,6 +109,7 @@ func (s *System) ActorOf(actor vivid.Actor, options ...vivid.ActorOption) (vivid
 }
 
 func (s *System) Start() error {
+	var startErr error
 	var stateError = func(s *System) error {
 		s.statusLock.Lock()
 		defer s.statusLock.Unlock()
@@ -121,21 +122,20 @@ func (s *System) Start() error {
 			return vivid.ErrorActorSystemAlreadyStopped
 		default:
 			s.status = start
+			// 初始化在状态锁内完成，避免并发的 Stop 观察到已启动但尚未初始化完成的系统
+			s.Logger().Debug("actor system starting")
+			startErr = chain.New(chain.WithContext(s.options.Context)).
+				Append(systemChains.spawnGuardActor(s)).
+				Append(systemChains.initializeMetrics(s)).
+				Append(systemChains.initializeRemoting(s)).
+				Append(systemChains.initializeCluster(s)).
+				Run()
 			return nil
 		}
 	}(s)
 	if stateError != nil {
 		return stateError
 	}
-
-	s.Logger().Debug("actor system starting")
-
-	startErr := chain.New(chain.WithContext(s.options.Context)).
-		Append(systemChains.spawnGuardActor(s)).
-		Append(systemChains.initializeMetrics(s)).
-		Append(systemChains.initializeRemoting(s)).
-		Append(systemChains.initializeCluster(s)).
-		Run()
 
 	if startErr != nil {
 		s.Logger().Error("actor system start failed", log.Any("err", startErr))
